@@ -50,6 +50,7 @@ DEFAULT_KNOBS = Knobs(
     p_long_doc=0.15,
     p_return_over_params=0.12,  # the returned expression mentions parameters ("a + b")
     p_scalar_code_default=0.06,  # an int/float/bool (or Optional thereof) whose default is a computed expression
+    p_multiline_doc=0.0,  # prose that itself contains a line break (as descriptions parsed from multi-line entries do)
     p_boundary_doc=0.1,  # prose of an exact length around the wrap width, so that the break falls inside / next to the default sentence
     p_multi_line_summary=0.3,
     p_long_summary=0.15,
@@ -115,6 +116,8 @@ class IRGen:
                     ws.insert(at, r.choice(["-", "--", "(lo - hi)", "pre- and", "well-known", "https://example.org/zq/a_rather_long_path/of_the_documentation.html"]))
                 text = " ".join(ws)
             return text, "long"
+        if self.k.p_multiline_doc and self.chance(self.k.p_multiline_doc):
+            return "the {} setting {}\nand also {}".format(tag, self._words(r.randint(1, 4)), self._words(r.randint(2, 5))), "multi_line"
         if self.k.p_boundary_doc and self.chance(self.k.p_boundary_doc):
             want = r.randint(60, 98)
             text = "the {} setting".format(tag)
